@@ -82,6 +82,9 @@ class ExcelInPython:
         
         def __ge__(self, other: Any) -> bool:
             return self.__eq__(other) or self.__gt__(other)
+
+        def __ne__(self, other: Any) -> bool:
+            return not self.__eq__(other)
             
     def _parse_date_obj(self, date: str | datetime.datetime) -> datetime.datetime | None:
         if isinstance(date, datetime.datetime):
